@@ -243,7 +243,7 @@ pub fn policy_sets(tier: Tier, schema: &cedar_policy::Schema) -> Vec<(Vec<Pol>, 
         (Effect::Permit, AS::Eq(view()), E::ite(E::bin(BinOp::In, pr.clone(), E::Ent(gh())), E::Bool(true), E::bin(BinOp::Gt, E::bin(BinOp::Mul, E::attr(cx.clone(), "n"), E::Long(2)), E::Long(0)))),
         (Effect::Permit, AS::Eq(view()), E::Is(b(E::attr(rs.clone(), "owner")), "User".into())),
         (Effect::Permit, AS::Eq(view()), E::IsIn(b(pr.clone()), "User".into(), b(E::Ent(gh())))),
-        (Effect::Permit, AS::Eq(view()), E::Like(b(E::attr(E::attr(rs.clone(), "owner"), "nick")), vec![Pat::Char('a'), Pat::Star])),
+        (Effect::Permit, AS::Eq(view()), E::and(E::has(E::attr(rs.clone(), "owner"), "nick"), E::Like(b(E::attr(E::attr(rs.clone(), "owner"), "nick")), vec![Pat::Char('a'), Pat::Star]))),
         (Effect::Permit, AS::Eq(view()), E::and(E::has(pr.clone(), "nick"), E::Like(b(E::attr(pr.clone(), "nick")), vec![Pat::Star, Pat::Char('l')]))),
         (Effect::Forbid, AS::Eq(view()), E::and(E::has(rs.clone(), "ip"), E::ext("isInRange", vec![E::attr(rs.clone(), "ip"), E::ext("ip", vec![E::str("10.0.0.0/8")])]))),
         (Effect::Permit, AS::Eq(view()), E::bin(BinOp::ContainsAny, E::attr(rs.clone(), "labels"), E::Set(vec![E::str("x"), E::str("q")]))),
@@ -251,7 +251,7 @@ pub fn policy_sets(tier: Tier, schema: &cedar_policy::Schema) -> Vec<(Vec<Pol>, 
         (Effect::Permit, AS::Eq(view()), E::bin(BinOp::Eq, E::Neg(b(E::attr(pr.clone(), "age"))), E::Long(-3))),
         (Effect::Permit, AS::Eq(view()), E::bin(BinOp::Eq, E::bin(BinOp::Sub, E::attr(cx.clone(), "n"), E::attr(pr.clone(), "age")), E::Long(2))),
         (Effect::Permit, AS::Eq(view()), E::not(E::bin(BinOp::In, E::attr(rs.clone(), "owner"), E::Ent(gg())))),
-        (Effect::Permit, AS::Eq(view()), E::and(E::has(pr.clone(), "mgr"), E::bin(BinOp::In, E::attr(pr.clone(), "mgr"), E::Set(vec![E::Ent(ub()), E::Ent(gh())])))),
+        (Effect::Permit, AS::Eq(view()), E::and(E::has(pr.clone(), "mgr"), E::bin(BinOp::In, E::attr(pr.clone(), "mgr"), E::Set(vec![E::Ent(gg()), E::Ent(gh())])))),
         (Effect::Permit, AS::Eq(view()), E::and(E::Has(b(pr.clone()), vec!["mgr".into(), "nick".into()]), E::bin(BinOp::Eq, E::attr(E::attr(pr.clone(), "mgr"), "nick"), E::str("al")))),
         (Effect::Forbid, AS::Eq(view()), E::bin(BinOp::Eq, E::attr(E::attr(rs.clone(), "meta"), "pub"), E::has(cx.clone(), "flag"))),
         (Effect::Permit, AS::Eq(view()), E::and(E::bin(BinOp::HasTag, pr.clone(), E::str("t1")), E::bin(BinOp::Eq, E::bin(BinOp::GetTag, pr.clone(), E::str("t1")), E::str("x")))),
@@ -284,6 +284,47 @@ pub fn policy_sets(tier: Tier, schema: &cedar_policy::Schema) -> Vec<(Vec<Pol>, 
         |l, _| E::bin(BinOp::Lt, E::Neg(b(l)), E::Long(0)),
         |l, _| E::bin(BinOp::ContainsAll, E::Set(vec![l, E::Long(0)]), E::Set(vec![E::Long(0)])),
     ];
+    // an entity mentioned ONLY at one operand position of one operator kind (after seed C15-a2:
+    // the batched evaluator finds the entities to load by walking the residual)
+    {
+        let s_key = E::ite(E::attr(E::attr(rs.clone(), "meta"), "pub"), E::str("t1"), E::str("zz"));
+        let r_pub = E::attr(E::attr(rs.clone(), "meta"), "pub");
+        let r_owner = E::attr(rs.clone(), "owner");
+        let r_age = E::attr(r_owner.clone(), "age");
+        let p_age = E::attr(pr.clone(), "age");
+        let only_at: Vec<E> = vec![
+            E::bin(BinOp::HasTag, pr.clone(), s_key.clone()),
+            E::and(E::bin(BinOp::HasTag, pr.clone(), s_key.clone()), E::bin(BinOp::Eq, E::bin(BinOp::GetTag, pr.clone(), s_key.clone()), E::str("x"))),
+            E::Like(b(s_key.clone()), vec![Pat::Char('t'), Pat::Star]),
+            E::Is(b(r_owner.clone()), "User".into()),
+            E::bin(BinOp::Contains, E::Set(vec![r_owner.clone()]), pr.clone()),
+            E::bin(BinOp::Eq, E::attr(E::Rec(vec![("a".into(), r_owner.clone())]), "a"), pr.clone()),
+            E::ext("isInRange", vec![E::ext("ip", vec![E::str("10.0.0.1")]), E::ite(r_pub.clone(), E::ext("ip", vec![E::str("10.0.0.0/8")]), E::ext("ip", vec![E::str("::1")]))]),
+            E::has(r_owner.clone(), "nick"),
+            E::bin(BinOp::Lt, E::Neg(b(r_age.clone())), E::Long(0)),
+            E::not(r_pub.clone()),
+            E::IsEmpty(b(E::attr(rs.clone(), "labels"))),
+            E::bin(BinOp::In, r_owner.clone(), E::Ent(gg())),
+            E::bin(BinOp::Lt, p_age.clone(), r_age.clone()),
+            E::bin(BinOp::Gt, E::bin(BinOp::Add, p_age.clone(), r_age.clone()), E::Long(0)),
+            E::bin(BinOp::Contains, E::attr(rs.clone(), "labels"), s_key.clone()),
+            E::bin(BinOp::ContainsAll, E::Set(vec![E::str("t1"), E::str("zz")]), E::Set(vec![s_key.clone()])),
+            E::and(E::bin(BinOp::Gt, p_age.clone(), E::Long(1)), r_pub.clone()),
+            E::or(E::bin(BinOp::Gt, p_age.clone(), E::Long(1)), r_pub.clone()),
+            E::or(r_pub.clone(), E::bin(BinOp::Gt, p_age.clone(), E::Long(1))),
+            E::ite(E::bin(BinOp::Gt, p_age.clone(), E::Long(1)), r_pub.clone(), E::Bool(true)),
+            E::ite(E::bin(BinOp::Gt, p_age.clone(), E::Long(1)), E::Bool(true), r_pub.clone()),
+            E::ite(r_pub.clone(), E::bin(BinOp::Gt, p_age.clone(), E::Long(1)), E::Bool(false)),
+            E::bin(BinOp::Gt, E::attr(E::Ent(ub()), "age"), E::Long(1)),
+            E::bin(BinOp::HasTag, E::Ent(ub()), E::str("t1")),
+            E::bin(BinOp::Eq, E::attr(pr.clone(), "age"), E::attr(E::Ent(ub()), "age")),
+        ];
+        for (i, e) in only_at.into_iter().enumerate() {
+            let mut p = Pol::simple(&format!("o{}", valid.len()), if i % 3 == 1 { Effect::Forbid } else { Effect::Permit }, Some(e));
+            p.action = AS::Eq(view());
+            valid.push(p);
+        }
+    }
     let mut k = 0usize;
     for l in &leaves {
         for c in &containers {
@@ -323,6 +364,8 @@ pub fn policy_sets(tier: Tier, schema: &cedar_policy::Schema) -> Vec<(Vec<Pol>, 
     for p in &valid {
         if let Some(s) = mk(&[p]) {
             out.push((vec![p.clone()], s));
+        } else if std::env::var("MC_LOUD").is_ok() {
+            eprintln!("policy_sets: not strictly valid, dropped: {}", p.text(&st));
         }
     }
     // pairs: each policy with its 1st and 5th successor, flipping one effect to mix permit/forbid
